@@ -6,6 +6,8 @@ import Hv.Vmdk
 import Hv.Hdd
 import Hv.Concat
 import HvProofs.Concat
+import HvProofs.VmdkDescRT
+import HvProofs.ConcatSparse
 namespace Hv.C10
 open Hv Hv.VmdkDesc Hv.Concat
 
@@ -16,6 +18,133 @@ theorem wiring_total :
     ∀ ty ∈ ["FLAT", "VMFS", "SPARSE", "VMFSSPARSE", "SESPARSE"],
       (parseExtentLine ("RW 2048 " ++ ty ++ " \"disk-f001.vmdk\"").toList).map (fun e => (e.type, wire e.type))
         = some (ty.toList, if ty = "FLAT" ∨ ty = "VMFS" then Wire.flat else Wire.sparse) := by
+  decide
+
+/-! ### the extent-line grammar
+
+  `parseExtentLine` is the model of `RE_EXTENT_DESCRIPTOR.search(line)` + `ExtentDescriptor.__post_init__`:
+  a generic backtracking matcher (`Hv.Regex.matchRe`, fuel-bounded) run on the AST that `harness/extract.py`
+  translates from the live pattern on every run.  `parseExtentLine_direct` (`Hv/VmdkDescEnc.lean`) is a direct
+  recursive-descent parser without regex, fuel or capture positions; it cuts the line into its written pieces
+  (`Raw`).  The two are **equal on every line** — the proof (`HvProofs/Regex.lean`, `HvProofs/VmdkDesc.lean`)
+  reads the extracted AST fuel-free (`sem_RE`; it stops compiling when the pattern changes upstream) and
+  determinises the backtracking stage by stage. -/
+
+/-- **extent_line_direct_eq**: the regex model is the direct parser, for all lines (any characters, any length) -/
+theorem extent_line_direct_eq (line : Str) : parseExtentLine line = parseExtentLine_direct line :=
+  parseExtentLine_eq_direct line
+
+/-- **extent_line_roundtrip**: for every abstract extent in the decidable class `wfExtent`
+    (access ∈ {RW, RDONLY, NOACCESS}; any sector count; type ∈ the eight kinds of the pattern; optional file name:
+    non-empty, no newline, no `"` as first or last character — spaces, `=`, `#`, inner `"`, any Unicode allowed;
+    optional start sector; optional partition uuid / device identifier: non-empty, no space character, no `"`,
+    a device identifier only after a uuid, and without a start sector the uuid is not all digits)
+    parsing the printed line gives back exactly the extent. -/
+theorem extent_line_roundtrip (e : ExtentSpec) (h : wfExtent e = true) :
+    parseExtentLine (printExtentLine e) = some e.toExtent := by
+  rw [parseExtentLine_eq_direct, parseExtentLine_direct, ← raw_line,
+    parseRaw_complete e.raw (wf_valid e h).1 (wf_valid e h).2]
+  show e.raw.toExtent e.raw.line = _
+  rw [raw_toExtent e h]
+  rfl
+
+/-- the same for pieces written with any space characters (`\s`: tab, NBSP, …) and any Unicode digits: a valid,
+    canonically written `Raw` parses to its own fields -/
+theorem extent_line_roundtrip_raw (F : Raw) (hv : F.validb = true) (hc : F.canonb = true) :
+    parseExtentLine F.line = F.toExtent F.line := by
+  rw [parseExtentLine_eq_direct, parseExtentLine_direct, parseRaw_complete F hv hc]
+
+/-- **extent_line_fields_exact** (the converse): a line the parser accepts *is* the concatenation of the pieces
+    `access \s sectors \s type [\s "name"] [\s start] [\s uuid] [\s dev]` — the whole line, in this order, single
+    space characters between them, every piece in its class (`validb`) — and the returned fields are exactly
+    these pieces: the name is the full text between the first `"` and the last one (not cut at an inner space,
+    `=`, `#` or `"`), the numbers are the base-10 values of the complete digit runs. -/
+theorem extent_line_fields_exact (line : Str) (x : Extent) (h : parseExtentLine line = some x) :
+    ∃ F : Raw, F.line = line ∧ F.validb = true ∧
+      x.raw = line ∧ x.access = F.access ∧ parseInt F.sectors = some x.sectors ∧ x.type = F.type ∧
+      x.filename = F.filename.map (fun p => stripChars ['"'] p.2) ∧
+      (match F.start with
+       | none => x.start = none
+       | some p => ∃ n, parseInt p.2 = some n ∧ x.start = some n) ∧
+      x.uuid = F.uuid.map (·.2) ∧ x.dev = F.dev.map (·.2) := by
+  rw [parseExtentLine_eq_direct, parseExtentLine_direct] at h
+  cases hp : parseRaw line with
+  | none => rw [hp] at h; cases h
+  | some F =>
+    rw [hp] at h
+    obtain ⟨hl, hv⟩ := parseRaw_sound line F hp
+    refine ⟨F, hl, hv, ?_⟩
+    have hst : pieceOk isDg F.start = true := by
+      simp only [Raw.validb, Bool.and_eq_true] at hv
+      exact hv.1.1.2
+    have hfn : namePieceOk F.filename = true := by
+      simp only [Raw.validb, Bool.and_eq_true] at hv
+      exact hv.1.1.1.2
+    simp only [Raw.toExtent] at h
+    cases hs : parseInt F.sectors with
+    | none => rw [hs] at h; cases h
+    | some n =>
+      rw [hs] at h
+      have hfn' : F.filename.map (fun p => if p.2.isEmpty then p.2 else stripChars ['"'] p.2)
+          = F.filename.map (fun p => stripChars ['"'] p.2) := by
+        cases hf : F.filename with
+        | none => rfl
+        | some p =>
+          obtain ⟨w, t⟩ := p
+          rw [hf] at hfn
+          cases t with
+          | nil => simp [namePieceOk] at hfn
+          | cons _ _ => rfl
+      rw [hfn'] at h
+      cases hF : F.start with
+      | none =>
+        rw [hF] at h
+        simp only [Option.bind_eq_bind, Option.bind_some, Option.pure_def, Option.some.injEq] at h
+        subst h
+        exact ⟨rfl, rfl, rfl, rfl, rfl, rfl, rfl, rfl⟩
+      | some p =>
+        obtain ⟨w, t⟩ := p
+        rw [hF] at h hst
+        have hne : t.isEmpty = false := (pieceOk_some hst).2.1
+        simp only [hne, Bool.false_eq_true, if_false, Option.bind_eq_bind, Option.bind_some] at h
+        cases ht : parseInt t with
+        | none => rw [ht] at h; cases h
+        | some m =>
+          rw [ht] at h
+          simp only [Option.map_some, Option.bind_some, Option.pure_def, Option.some.injEq] at h
+          subst h
+          exact ⟨rfl, rfl, rfl, rfl, rfl, ⟨m, ht, rfl⟩, rfl, rfl⟩
+
+/-- decimal digits are read back in full: `int(str(n)) = n` for the model's `parseInt` and the printer's `natDigits` -/
+theorem parseInt_natDigits (n : Nat) : parseInt (natDigits n) = some n := (natDigits_spec n).2.2
+
+/-! non-vacuity: a hosted-sparse extent whose name has spaces, `=`, `#`, an inner quote and non-ASCII characters,
+    with start sector, uuid and device identifier; a FLAT extent with offset; a ZERO extent without name -/
+def exLine1 : ExtentSpec :=
+  { access := "RW".toList, sectors := 4192256, type := "SPARSE".toList,
+    filename := some "my disk = #1 \"é\" x.vmdk".toList, start := some 0, uuid := some "part-uuid".toList,
+    dev := some "dev=1".toList }
+def exLine2 : ExtentSpec :=
+  { access := "RDONLY".toList, sectors := 8, type := "FLAT".toList, filename := some "x.vmdk".toList, start := some 0 }
+def exLine3 : ExtentSpec := { access := "NOACCESS".toList, sectors := 100, type := "ZERO".toList }
+
+example : wfExtent exLine1 = true ∧ wfExtent exLine2 = true ∧ wfExtent exLine3 = true := by decide
+
+example : printExtentLine exLine2 = "RDONLY 8 FLAT \"x.vmdk\" 0".toList := by decide
+example : printExtentLine exLine3 = "NOACCESS 100 ZERO".toList := by decide
+
+example : (parseExtentLine (printExtentLine exLine1)).map (fun x => (x.sectors, x.filename, x.start, x.uuid, x.dev))
+    = some (4192256, some "my disk = #1 \"é\" x.vmdk".toList, some 0, some "part-uuid".toList, some "dev=1".toList) := by
+  rw [extent_line_roundtrip exLine1 (by decide)]
+  rfl
+
+/-- outside the class the round trip really fails: an all-digit uuid without a start sector is read as the start sector -/
+example : (parseExtentLine_direct "RW 8 FLAT \"a\" 123".toList).map (fun x => (x.start, x.uuid)) = some (some 123, none) := by
+  decide
+
+/-- … and a `"` in a later field extends the quoted name (greedy `.+`) -/
+example : (parseExtentLine_direct "RW 8 FLAT \"a\" 5 u\"".toList).map (fun x => (x.filename, x.start))
+    = some (some "a\" 5 u".toList, none) := by
   decide
 
 /-! ### VMDK: the extent walk
@@ -122,6 +251,95 @@ example : exVmdk.readSectors 1 3 = .ok (slice exA.byte 512 512 ++ slice exB.byte
 /-- … and the tail of the disk, ending exactly at the end of the last extent, by the theorem -/
 example : exVmdk.readSectors 2 4 = .ok (slice (concat (flatParts exExts)) 1024 2048) :=
   (vmdk_flat_extents_read_correct exExts (by decide) 2 4 (by decide)).1
+
+/-! ### `ReadAs` instantiated for sparse extents (C02) and for mixed descriptors -/
+
+/-- **vmdk_mixed_extents_read_correct**: a descriptor's extents after the wiring — FLAT / VMFS files holding their
+    extent, hosted-sparse / VMFS-sparse / SE-sparse extents inside the hypotheses of C02 `sparse_read_correct`
+    (`WF`, uncompressed; any capacity, grain size, grain states; with or without parent), stream-optimised extents inside
+    C02 `compressed_read_correct` (`WFc`), and extents of the kinds the
+    grammar accepts but `VMDK.__init__` does not map (ZERO / VMFSRDM / VMFSRAW, finding D20) — assembled by
+    `VMDK.__init__`: every in-range `read_sectors` (inside one extent, across any number of boundaries between extents
+    of different kinds, up to the very end) returns the concatenation of the **mapped** extents' contents, the size is
+    their sum, and that sum is short of the sectors the descriptor declares by exactly the unwired extents. -/
+theorem vmdk_mixed_extents_read_correct (exts : List Ext) (pc : Nat → UInt8) (h : ∀ e ∈ exts, e.OK pc)
+    (sector count : Nat) (hin : sector + count ≤ total (extParts pc 0 exts)) :
+    (Vmdk.assemble (extCtors exts)).readSectors sector count
+        = .ok (slice (concat (extParts pc 0 exts)) (sector * 512) (count * 512)) ∧
+    (Vmdk.assemble (extCtors exts)).size = total (extParts pc 0 exts) * 512 ∧
+    total (extParts pc 0 exts) + unwiredSectors exts = declared exts := by
+  have hg := ext_good pc exts h
+  have hc := (vmdk_assemble_contiguous _ hg).1
+  have hr : ReadAs (Vmdk.assemble (extCtors exts)).disks.toList (extParts pc 0 exts) := by
+    rw [assemble_disks]; exact ext_readAs pc exts 0 h
+  refine ⟨readSectors_concat _ _ hc hr sector count hin, ?_, total_extParts pc exts 0⟩
+  rw [(vmdk_assemble_contiguous _ hg).2, ← readAs_sectors _ _ hr]; rfl
+
+/-- **vmdk_sparse_extents_read_correct**: `twoGbMaxExtentSparse`-style descriptors — every extent a well-formed
+    sparse extent (C02 `WF`, e.g. by `vmdk_wfb_sound`), extent `i` opened as `SparseDisk(fh_i, parent, Σ_{j<i} capacity_j)`:
+    reads are the concatenation of the extents' guest contents, the size is `Σ capacity_i * 512`. -/
+theorem vmdk_sparse_extents_read_correct (sps : List Vmdk.Sparse) (pc : Nat → UInt8)
+    (h : ∀ sp ∈ sps, Vmdk.WF sp ∧ Vmdk.ParentOK sp pc ∧ 0 < sp.capacity)
+    (sector count : Nat) (hin : sector + count ≤ (sps.map (·.capacity)).sum) :
+    (Vmdk.assemble (sps.map sparseCtor)).readSectors sector count
+        = .ok (slice (concat (sparseParts pc 0 sps)) (sector * 512) (count * 512)) ∧
+    (Vmdk.assemble (sps.map sparseCtor)).size = (sps.map (·.capacity)).sum * 512 := by
+  have hm := vmdk_mixed_extents_read_correct (sps.map Ext.sparse) pc (by
+    intro e he
+    obtain ⟨sp, hsp, rfl⟩ := List.mem_map.mp he
+    exact h sp hsp) sector count (by rw [extParts_sparse, total_sparseParts]; exact hin)
+  rw [extCtors_sparse, extParts_sparse, total_sparseParts] at hm
+  exact ⟨hm.1, hm.2.1⟩
+
+/-- without parents the parts are the extents' own guest contents `sp.guest` (what `vmdk.concatcheck` evaluates) -/
+theorem vmdk_sparse_extents_noparent (sps : List Vmdk.Sparse) (pc : Nat → UInt8) (h : ∀ sp ∈ sps, sp.parent = none) :
+    sparseParts pc 0 sps = sps.map (fun sp => ⟨sp.capacity, sp.guest (fun _ => 0)⟩) :=
+  sparseParts_noparent pc sps 0 h
+
+/-! non-vacuity: a hosted-sparse extent (capacity 3 sectors, grain size 2: grain 0 stored at sector 2, grain 1 absent)
+    and the stream-optimised extent `exC` of C02, after a flat extent and a ZERO extent, before another flat extent;
+    a request across all the boundaries -/
+def exSFile : File := ⟨2048, fun p => if p = 512 then 2 else if p < 1024 then 0 else UInt8.ofNat (p % 251)⟩
+def exS : Vmdk.Sparse :=
+  { fh := exSFile, kind := .hosted, flags := 0, capacity := 3, grainSize := 2, gtSize := 2, gd := #[1],
+    grainTablesOffset := 0, grainsOffset := 0, sectorOffset := 0, parent := none, inflate := fun _ _ => .error .other }
+def exMixed : List Ext := [.flat exA 2, .unwired 8, .sparse exS, .compressed Vmdk.exC Vmdk.exC.contentOf, .flat exC 3]
+
+theorem exS_wf : Vmdk.WF exS := Vmdk.wfbU_sound exS (by decide)
+set_option maxRecDepth 100000 in
+theorem exC_wfc : Vmdk.WFc Vmdk.exC Vmdk.exC.contentOf := Vmdk.wfbC_sound _ (by decide)
+theorem exC_parent : Vmdk.ParentOK Vmdk.exC (fun _ => 0) := by intro p hp; cases hp
+theorem exS_parent : Vmdk.ParentOK exS (fun _ => 0) := by intro p hp; cases hp
+
+theorem exMixed_ok : ∀ e ∈ exMixed, e.OK (fun _ => 0) := by
+  intro e he
+  simp only [exMixed, List.mem_cons, List.not_mem_nil, or_false] at he
+  rcases he with rfl | rfl | rfl | rfl | rfl
+  · exact ⟨by decide, by decide⟩
+  · trivial
+  · exact ⟨exS_wf, exS_parent, by decide⟩
+  · exact ⟨exC_wfc, exC_parent, by decide⟩
+  · exact ⟨by decide, by decide⟩
+
+example : total (extParts (fun _ => 0) 0 exMixed) = 10 ∧ declared exMixed = 18 := by decide
+
+/-- sectors 1 … 8: the tail of the flat extent, the whole sparse extent (stored grain, then the absent one), the whole
+    stream-optimised extent, and the head of the last flat extent -/
+example : (Vmdk.assemble (extCtors exMixed)).readSectors 1 8
+    = .ok (slice (concat (extParts (fun _ => 0) 0 exMixed)) 512 4096) :=
+  (vmdk_mixed_extents_read_correct exMixed _ exMixed_ok 1 8 (by decide)).1
+
+/-- the sparse extent's bytes inside the concatenation: stored grain from file offset 1024, absent grain zeros -/
+example : concat (extParts (fun _ => 0) 0 exMixed) 1024 = exSFile.byte 1024 ∧
+    concat (extParts (fun _ => 0) 0 exMixed) (1024 + 1023) = exSFile.byte 2047 ∧
+    concat (extParts (fun _ => 0) 0 exMixed) (1024 + 1024) = 0 := by decide
+
+example : (Vmdk.assemble ([exS, exS].map sparseCtor)).size = 3072 :=
+  (vmdk_sparse_extents_read_correct [exS, exS] (fun _ => 0)
+    (by intro sp hsp
+        simp only [List.mem_cons, List.not_mem_nil, or_false, or_self] at hsp
+        subst hsp
+        exact ⟨exS_wf, exS_parent, by decide⟩) 0 0 (by decide)).2
 
 /-! ### Parallels `StorageStream`
 
